@@ -92,7 +92,38 @@ def mk_arg(form, curie):
         return TermId.from_curie(curie)
     if form == 'idf':
         return identified(TermId.from_curie(curie))
+    if form in ('stid', 'idf-stid', 'user-tid'):
+        # the OTHER TermId implementations: the shipped SimpleTermId, and a user subclass that only supplies prefix / id
+        from hpotk.model._term_id import SimpleTermId
+        i = curie.index(':')
+        if form == 'user-tid':
+            global _USER_TID
+            if _USER_TID is None:
+                class UserTermId(TermId):
+                    def __init__(self, p, d):
+                        self._p, self._d = p, d
+
+                    @property
+                    def prefix(self):
+                        return self._p
+
+                    @property
+                    def id(self):
+                        return self._d
+                _USER_TID = UserTermId
+            return _USER_TID(curie[:i], curie[i + 1:])
+        t = SimpleTermId(curie, i)
+        return t if form == 'stid' else identified(t)
+    if form == 'str-sub':
+        return _StrSub(curie)
     raise ValueError(form)
+
+
+_USER_TID = None
+
+
+class _StrSub(str):
+    """a `str` subclass is a `str`"""
 
 
 def wire_arg(form, curie):
